@@ -43,6 +43,7 @@ func run(c *hk.Ctx) {
 	runScripted(c)
 	runSizes(c)
 	runPrompt(c)
+	runStray(c)
 	runKill(c)
 	runMixed(c)
 	runBurstSizes(c)
